@@ -113,7 +113,7 @@ func runC15(c *an.Ctx) {
 			case *ast.KeyValueExpr:
 				if id, ok := x.Key.(*ast.Ident); ok {
 					if fv, ok := an.ObjOf(r.info, id).(*types.Var); ok && fv.IsField() {
-						if k := p.FieldOwner(fv) + "." + fv.Name(); r.fieldClean[k] {
+						if k := p.FieldOwner(fv) + "." + an.RoleOf(fv); r.fieldClean[k] {
 							explore[f] = true
 						}
 					}
@@ -342,7 +342,7 @@ func (r *c15) run(f *an.Fn) {
 					}
 					if id, ok := kv.Key.(*ast.Ident); ok {
 						if fv, ok := an.ObjOf(info, id).(*types.Var); ok && fv.IsField() {
-							if k := p.FieldOwner(fv) + "." + fv.Name(); r.fieldClean[k] {
+							if k := p.FieldOwner(fv) + "." + an.RoleOf(fv); r.fieldClean[k] {
 								note("store to "+k, kv.Value, kv.Pos(), st)
 							}
 						}
@@ -375,7 +375,7 @@ func (r *c15) run(f *an.Fn) {
 					}
 					if id, ok := kv.Key.(*ast.Ident); ok {
 						if fv, ok := an.ObjOf(info, id).(*types.Var); ok && fv.IsField() {
-							if k := p.FieldOwner(fv) + "." + fv.Name(); r.fieldClean[k] {
+							if k := p.FieldOwner(fv) + "." + an.RoleOf(fv); r.fieldClean[k] {
 								note("store to "+k, kv.Value, kv.Pos(), st)
 							}
 						}
